@@ -290,9 +290,22 @@ pub fn first_panic<W>(r: &MuxRun<W>) -> Option<Failure> {
 // strategies
 // ------------------------------------------------------------------------------------------
 
+/// parameter-set bytes are opaque to the container: random bytes, but also content a codec-aware
+/// layer might be tempted to interpret (Annex B start codes, emulation prevention, all 0 / 0xFF)
+pub fn param_set(min: usize, max: usize) -> impl Strategy<Value = Vec<u8>> {
+    let tail = prop::collection::vec(any::<u8>(), min..max);
+    prop_oneof![
+        6 => prop::collection::vec(any::<u8>(), min..max),
+        1 => tail.clone().prop_map(|t| [&[0u8, 0, 0, 1][..], &t[..]].concat()),
+        1 => tail.clone().prop_map(|t| [&[0u8, 0, 1][..], &t[..]].concat()),
+        1 => tail.prop_map(|t| [&[0x67u8, 0x42, 0, 0, 3, 0, 0, 3][..], &t[..]].concat()),
+        1 => (min.max(1)..max.max(2), prop_oneof![Just(0u8), Just(0xffu8)]).prop_map(|(n, b)| vec![b; n]),
+    ]
+}
+
 pub fn valid_kind() -> impl Strategy<Value = MKind> {
     prop_oneof![
-        (any::<u16>(), any::<u16>(), prop::collection::vec(any::<u8>(), 4..16), prop::collection::vec(any::<u8>(), 0..8)).prop_map(|(width, height, sps, pps)| MKind::Avc { width, height, sps, pps }),
+        (any::<u16>(), any::<u16>(), param_set(4, 16), param_set(0, 8)).prop_map(|(width, height, sps, pps)| MKind::Avc { width, height, sps, pps }),
         (any::<u16>(), any::<u16>()).prop_map(|(width, height)| MKind::Hevc { width, height }),
         (any::<u16>(), any::<u16>()).prop_map(|(width, height)| MKind::Vp9 { width, height }),
         (valid_aot(), 0u8..=12, 1u8..=7, any::<u32>()).prop_map(|(profile, freq_index, chan, bitrate)| MKind::Aac { profile, freq_index, chan, bitrate }),
